@@ -300,6 +300,11 @@ class MPContext(BaseMPContext, StandardBaseContext):
         """
         a = ctx.__class__()
         a.prec = ctx.prec
+        # helper contexts used internally by some functions (e.g. zetazero)
+        a._mp = a
+        for name in ('_fp', '_iv'):
+            if hasattr(ctx, name):
+                setattr(a, name, getattr(ctx, name))
         return a
 
     # Several helper methods
